@@ -680,6 +680,11 @@ def fixed_tables():
         S([["binl", ["mf", "<=", "<"]], ["ternr", L("?"), L(":")]]),
         S([["binl", L("+")], ["ternl", L("?"), L(":")]], base="var"),
         S([["ternr", L("?"), L(":")], ["binl", L("+")]], lpar=("lit", "["), rpar=("sup", "]")),
+        # ternary tables inside the class of C16_climb_partial (Word(nums) operands, Literal / MatchFirst-of-Literal operators)
+        S([["binl", L("+")], ["ternr", L("?"), L(":")]]),
+        S([["ternl", L("?"), L(":")], ["binl", L("+")]]),
+        S([["prefix", L("-")], ["binl", ["mf", "*", "/"]], ["ternl", L("?"), L(":")], ["ternr", L("@"), L("!")]]),
+        S([["ternr", ["mf", "?", "%"], L(":")], ["binr", L("^")], ["ternl", L("<"), L(">")]]),
         # postfix / juxtaposition
         S([["postfix", L("!")], ["juxl"], ["binl", L("+")]]),
         S([["prefix", L("-")], ["juxr"], ["binr", L("^")]], base="var"),
@@ -1405,10 +1410,60 @@ def coq_tree_to_py(v):
     raise ValueError("unexpected tree %r" % (v,))
 
 
+def flat_strings(t):
+    if isinstance(t, str):
+        return [t]
+    return [s for x in t for s in flat_strings(x)]
+
+
 def climb_in_theorem_scope(spec):
     """tables to which C16_climb_partial applies syntactically (ctable_of / base_chars / par_spelling defined)"""
-    return (spec["base"] == "int" and all(l[0] in ("postfix", "prefix", "binl", "binr", "juxr") for l in spec["levels"])
+    return (spec["base"] == "int" and all(l[0] in ("postfix", "prefix", "binl", "binr", "juxr", "ternl", "ternr") for l in spec["levels"])
             and all(o[0] in ("lit", "mf") for l in spec["levels"] for o in l[1:]))
+
+
+def ternary_ops(spec):
+    """the spellings of the FIRST operator position of every ternary level of the table"""
+    return {s for l in spec["levels"] if l[0] in ("ternl", "ternr") for s in op_spellings(l[1])}
+
+
+def climb_hypotheses_on_real(ctx, trs, dws, digits):
+    """for tables in the syntactic scope: Coq `ctable_of` / `base_chars` / `par_spelling` / `not_plain_and` on the dumped real
+    pieces; [bool per table] (False + tie broken when a hypothesis that the Python scope test promises does not hold)"""
+    if not trs:
+        return []
+    exprs = []
+    for tr in trs:
+        real = tr.real
+        P = lambda o, real=real: sx_to_coq(observe.parse_sx(real.piece_sx(o)))
+        try:
+            lvls = ["%s %s []" % (COQ_LEVEL[lv[0]], " ".join(P(o) for o in ops)) for lv, ops in zip(real.spec["levels"], real.ops)]
+            exprs += ["ctable_of %s [%s]" % (dws, "; ".join(lvls)), "Some %s" % coq_ctable(tr.spec),
+                      "base_chars %s %s" % (dws, P(real.base)), "Some %s" % digits,
+                      "par_spelling %s %s" % (dws, P(real.lpar)), "Some %s" % vlib.coq_str(tr.T.lp),
+                      "not_plain_and %s" % P(real.rpar), "true"]
+        except NotExpressible as e:
+            ctx.broken("correspondence:pieces of table %s not expressible in Coq: %s" % (spec_id(tr.spec), e))
+            return None
+    try:
+        import os
+        vals = vlib.coq_eval_terms("c16_climbhyp_%d" % os.getpid(), COQ_PREAMBLE + "From PP Require Import Model.Climb.\n", exprs, timeout=900)
+    except Exception as e:
+        ctx.broken("correspondence:evaluation of the hypotheses of C16_climb_partial failed (%s: %s)" % (
+            type(e).__name__, str(e)[-300:].replace("\n", " ")))
+        return None
+    out = []
+    names = ["ctable_of", "base_chars", "par_spelling", "not_plain_and"]
+    for i, tr in enumerate(trs):
+        v = vals[8 * i:8 * i + 8]
+        bad = [names[j] for j in range(4) if v[2 * j] != v[2 * j + 1]]
+        if bad:
+            ctx.broken("correspondence:table %s is in the syntactic scope of C16_climb_partial but %s on the real pieces gives %r" % (
+                spec_id(tr.spec), bad[0], v[2 * names.index(bad[0])]))
+        else:
+            ctx.stat("climb_tables_hypotheses_hold_on_real_pieces")
+        out.append(not bad)
+    return out
 
 
 def run_climb_tie(ctx, runs, cases):
@@ -1442,10 +1497,25 @@ def run_climb_tie(ctx, runs, cases):
         ctx.broken("correspondence:Climb.climb evaluation failed (%s: %s)" % (type(e).__name__, str(e)[-300:].replace("\n", " ")))
         return
     coq_no_overlap = {ti: bool(v) for ti, v in zip(scope, vals[len(sel):])}
+    # the remaining hypotheses of C16_climb_partial evaluated ON THE REAL PIECES (operators, base, parentheses as dumped from
+    # the objects given to infix_notation): `ctable_of` must read the element table as exactly the token table used above
+    hyp = climb_hypotheses_on_real(ctx, [runs[ti] for ti in scope], dws, digits)
+    if hyp is None:
+        return
+    for ti, ok in zip(scope, hyp):
+        if not ok:
+            coq_no_overlap[ti] = False
+    for ti in tabs:
+        if ternary_ops(runs[ti].spec):
+            ctx.stat("climb_tables_with_ternary_level")
     for ti in scope:
         ctx.stat("climb_tables_in_theorem_scope")
+        if ternary_ops(runs[ti].spec):
+            ctx.stat("climb_tables_in_theorem_scope_with_ternary_level")
         if coq_no_overlap[ti]:
             ctx.stat("climb_tables_no_overlapb_true")
+            if ternary_ops(runs[ti].spec):
+                ctx.stat("climb_tables_no_overlapb_true_with_ternary_level")
             if runs[ti].T.overlaps():
                 ctx.broken("correspondence:no_overlapb holds in Coq for table %s but the Python table has overlapping spellings %r" % (
                     spec_id(runs[ti].spec), runs[ti].T.overlaps()[:3]))
@@ -1479,8 +1549,20 @@ def run_climb_tie(ctx, runs, cases):
         rv = res["rv"]
         ctx.stat("climb_vs_impl_compared")
         in_scope = coq_no_overlap.get(ti, False)
+        tern = ternary_ops(tr.spec)
+        # the table has a ternary level / a ternary operator is APPLIED in the tree climbing builds
+        tern_used = cl is not None and any(isinstance(x, str) and x in tern for x in flat_strings(cl)) and \
+            any(t in tern for t in toks)
+        if tern:
+            ctx.stat("climb_vs_impl_compared_ternary_table")
+        if tern_used:
+            ctx.stat("climb_vs_impl_compared_ternary_operator_applied")
         if in_scope:
             ctx.stat("climb_vs_impl_compared_under_theorem_hypotheses")
+            if tern:
+                ctx.stat("climb_vs_impl_compared_under_theorem_hypotheses_ternary_table")
+            if tern_used:
+                ctx.stat("climb_vs_impl_compared_under_theorem_hypotheses_ternary_operator_applied")
         agree = (rv == ("ok", [cl])) if cl is not None else rv[0] == "fail"
         ctx.case(json.dumps(["climb", spec_id(tr.spec), rendered]), cl is not None and len(leaves(cl)) >= 5, agree)
         if agree:
